@@ -93,6 +93,53 @@ def nudged(args, k):
     return out, "/".join(str(x) for x in path)
 
 
+def edit_nested(obj):
+    """Edits the first nested component found (fixed walk order, depth <= 4) in place through ITS public setter: a
+    rectangle's centre, a circle's radius, a polygon's vertices, an interval's end. Returns a description or None.
+    (The walk uses vars() only to find the component; the edit itself is public API.)"""
+    import numpy as np
+    from commonroad.common.util import Interval
+    from commonroad.geometry.shape import Circle, Polygon, Rectangle
+    seen = set()
+
+    def walk(o, depth, top):
+        if id(o) in seen or depth > 4:
+            return None
+        seen.add(id(o))
+        if not top:
+            if isinstance(o, Rectangle):
+                o.center = np.asarray(o.center, dtype=float) + np.array([1.0, -1.0])
+                return "Rectangle.center"
+            if isinstance(o, Circle):
+                o.radius = float(o.radius) + 1.0
+                return "Circle.radius"
+            if isinstance(o, Polygon):
+                o.vertices = np.asarray(o.vertices, dtype=float) + np.array([1.0, -1.0])
+                return "Polygon.vertices"
+            if isinstance(o, Interval) and type(o) is Interval:
+                o.end = o.end + 1
+                return "Interval.end"
+        if isinstance(o, (list, tuple)):
+            for e in o:
+                r_ = walk(e, depth + 1, False)
+                if r_:
+                    return r_
+            return None
+        if isinstance(o, dict):
+            for k_ in sorted(o, key=repr):
+                r_ = walk(o[k_], depth + 1, False)
+                if r_:
+                    return r_
+            return None
+        if type(o).__module__.startswith("commonroad.") and hasattr(o, "__dict__"):
+            for k_ in sorted(vars(o)):
+                r_ = walk(vars(o)[k_], depth + 1, False)
+                if r_:
+                    return r_
+        return None
+    return walk(obj, 0, True)
+
+
 MOTION = ([3.0, -2.0], 0.7)
 
 
@@ -204,6 +251,22 @@ def check_case(r, ctx):
                 raise Violation("%s-hash-stale-after-setter" % cls, "attribute %s assigned after hash(); x == y but "
                                 "hash(x) != hash(y)" % k)
             ctx.label("set-after-compare")
+        # a nested component edited in place through its own setter AFTER the container has been compared and hashed:
+        # the container equals (and hashes like) a never hashed container that received the same edit
+        try:
+            x4, y4 = K.construct(spec, args), K.construct(spec, args)
+            hash(x4), x4 == x2
+            what = edit_nested(x4)
+            what_y = edit_nested(y4)
+        except Exception:
+            what = what_y = None
+        if what is not None and what == what_y and K.snap_cmp(K.snap(x4), K.snap(y4))[0] == K.SAME:
+            _pair(cls, "nested-edit-after-compare:%s" % what, x4, y4, True, lambda: "%s edited in place after ==/hash; "
+                  "args %s" % (what, K.canon(args)[:600]))
+            if hash(x4) != hash(y4):
+                raise Violation("%s-hash-stale-after-nested-edit" % cls, "%s edited in place after hash(): x == y but "
+                                "hash(x) != hash(y); args %s" % (what, K.canon(args)[:600]))
+            ctx.label("nested-edit-after-compare")
         # a value changed far below 1e-10: the statement leaves open whether the objects are equal, but IF they compare
         # equal their hashes must agree (and the comparison must still be symmetric and consistent with !=)
         nargs, where = nudged(args, r.get("nudge", 0))
